@@ -19,7 +19,7 @@ ASSUMPTIONS = ['normalize_form (lower + NFKD without combining marks) is a param
 FORMS = ['wolf', 'Wolf', 'WOLF', 'wolves', 'résumé', 'resume', 'Résumé', 'RESUME', 'naïve', 'naive', 'San José', 'san jose', 'San Jose',
          'water bottle', 'Water Bottle', '水筒', 'ÅNGSTRÖM', 'angstrom', 'run', 'runs', 'ran', 'light', 'lights', 'Lights', 'go', 'went',
          'İstanbul', 'istanbul', 'ß', 'ss', 'ǆ']
-QUERIES = FORMS + ['wolfs', 'Wolves', 'WOLVES', 'resumes', 'Resumes', 'lighter', 'nope', 'san josé', 'SAN JOSE', 'water  bottle', 'ﬁne', 'fine']
+QUERIES = FORMS + ['wolfs', 'Wolves', 'WOLVES', 'resumes', 'Resumes', 'lighter', 'nope', 'san josé', 'SAN JOSE', 'water  bottle', 'ﬁne', 'fine', '', ' ']
 
 
 def gen(rng):
@@ -43,6 +43,14 @@ def gen(rng):
             e['lemma']['writtenForm'] = w
             e['forms'] = [f for f in e.get('forms', []) if f['writtenForm'] != w]
         forced = [low, var]
+    # a lemma reachable only by "lemmatize, then normalize": stored 'box', asked for as 'Boxes'
+    lem_then_norm = False
+    if a['entries'] and rng.random() < 0.6:
+        e = a['entries'][-1]
+        e['lemma']['writtenForm'] = 'box'
+        e['lemma']['partOfSpeech'] = 'n'
+        e['forms'] = [f for f in e.get('forms', []) if f['writtenForm'].lower() not in ('box', 'boxes')]
+        lem_then_norm = True
     other = g.lexicon('o', '1', '1.1', n_syn=2, n_ent=3, lang='en', forms_pool=FORMS)
     table = {}
     for q in rng.sample(QUERIES, 6):
@@ -70,6 +78,11 @@ def gen(rng):
               'lemmatizer': rng.choice([None, None, table, 'morphy', 'morphy_init'])}
         if n_ < len(forced):
             op.update({'normalizer': True, 'pos': None, 'lemmatizer': None})
+        elif lem_then_norm and n_ in (len(forced), len(forced) + 1):
+            op.update({'form': rng.choice(['Boxes', 'BOXES']), 'normalizer': True, 'pos': rng.choice([None, 'n']),
+                       'lemmatizer': 'morphy' if n_ == len(forced) else {'Boxes': [['n', ['Box']]], 'BOXES': [['n', ['BOX', 'nope']]]}})
+            q = op['form']
+            extra.update(['Box', 'BOX', 'nope', 'box'])
         ops.append(op)
         extra.add(q)
         for rules in SPEC_RULES.values():
